@@ -30,6 +30,22 @@ def pcoOp (toks : List String) : Option String :=
     | .ok l => pure ("ok " ++ showUnitsL l)
     | .err _ => pure "err trunc"
     | .panic => pure "panic"
+  | ["pcobuild", script] => do
+    let calls ← (if script == "-" then some [] else (script.splitOn ",").mapM fun c =>
+      match c.splitOn ":" with
+      | ["d4r"] => some Build.dns4Req
+      | ["d6r"] => some Build.dns6Req
+      | ["ipa"] => some Build.ipAllocNas
+      | ["d4", h] => (hexToBytes h).map Build.dns4
+      | ["pc4", h] => (hexToBytes h).map Build.pcscf4
+      | ["d6", h] => (hexToBytes h).map Build.dns6
+      | ["mtu", n] => n.toNat?.map Build.mtu4
+      | _ => none)
+    let (us, oks) := build calls
+    let mask := if oks.isEmpty then "-" else String.ofList (oks.map fun b => if b then '1' else '0')
+    let b := marshal us
+    let dec := match unmarshal b with | .ok l => showUnitsL l | .err _ => "err" | .panic => "panic"
+    pure s!"ok {mask} {showUnitsL us} {bytesToHex b} {dec}"
   | _ => none
 
 end NasVerif.Driver
